@@ -156,6 +156,13 @@ var specs = map[string]*propSpec{
 		runs:        []runSpec{{engine: "opt", qBatches: 16, qCases: 10, tBatches: 64, tCases: 48}},
 		guards:      []guard{{"opt.configs.ipv6only", 3, "ipv6only configurations"}, {"opt.configs.autoconfigure", 3, "autoconfigure"}, {"opt.configs.dns", 3, "dns"}, {"opt.configs.lease_time", 3, "lease_time"}},
 	},
+	"C18": {
+		level: "exploration",
+		rule: "YAML documents generated from the configuration grammar (server4/server6 present or not and in either order; listen absent / deprecated interface alias / scalar / list of 1-4 entries in every [address][%zone][:port] spelling incl. bracketed IPv6, zone inside brackets, v4-mapped, non-canonical spellings, link-local and interface-local multicast with and without zone, site-local multicast, wildcard forms; 1-5 plugins with 0-3 whitespace-separated arguments, null / empty / quoted / integer scalars) with an exact expectation, or with one injected rejection (wrong family, unparseable address, non-numeric port, plugins missing / empty / scalar / map, item with two keys, scalar item, listen+interface, no protocol section); a third of the documents are text mutations (byte overwrite, line deletion, re-indentation, unquoting, YAML re-typed scalars, duplication, truncation) classified no-panic-only. Each file goes through config.Load in a child process inside the private network namespace, so the interface set (multicast expansion) is known. Distinct by document text",
+		assumptions: assume("plugin names are lower-case (viper lower-cases keys); out-of-range ports, unbracketed IPv6 and YAML re-typed scalars are no-panic-only", "the set of multicast-capable interfaces is computed by the harness from net.Interfaces() independently of the loader"),
+		runs:        []runSpec{{engine: "config", netns: true, qBatches: 16, qCases: 10, tBatches: 64, tCases: 50}},
+		guards:      []guard{{"config.class.must-load", 3000, "must-load documents"}, {"config.class.must-reject", 1500, "must-reject documents"}, {"config.class.no-panic", 3000, "mutated documents"}, {"config.listeners_checked", 5000, "listeners compared"}},
+	},
 	"C19": {
 		level: "exploration",
 		rule: "each case is one built-in plugin (all 15) with one argument vector drawn from valid, boundary and invalid values of each argument kind (addresses of both families and v4-mapped, CIDRs incl. /0 and host routes, durations incl. negative/huge/garbage, integers incl. negative/overflow, URLs, labels of 63/64/255 bytes, file names: valid, malformed, empty, missing, directory; arity 0..6), hosted alone in a fresh server process through plugins.LoadPlugins; if setup accepts it, 40 requests are handled and every reply must parse, re-serialise to the same bytes and carry the options of the in-memory response. Non-trivial = every vector (accepted or rejected); distinct by (plugin, protocol, args)",
